@@ -217,4 +217,14 @@ VARIANTS = [
     dict(property="C09", name="setter-boxes-error", file=SYN, expect="FftFixedInOut_f32_set_resample_ratio", count=3,
          old="    fn set_resample_ratio(&mut self, _new_ratio: f64, _ramp: bool) -> ResampleResult<()> {\n        Err(ResampleError::SyncNotAdjustable)",
          new="    fn set_resample_ratio(&mut self, _new_ratio: f64, _ramp: bool) -> ResampleResult<()> {\n        let _note = String::from(\"not adjustable\");\n        Err(ResampleError::SyncNotAdjustable)"),
+    # ---------------- regression: re-introducing a repaired defect must be reported again (fixed entries suppress nothing)
+    dict(property="C12", name="revert-fix-ratio-bounds", revert_commit="30d33be", expect="bare-argument"),
+    dict(property="C13", name="revert-fix-mask-length", revert_commit="00a5a33", expect="R-C13-mask"),
+    dict(property="C10", name="revert-fix-reset-needed", revert_commit="b901fb3", expect="SincFixedOut.needed_input_size"),
+    dict(property="C05", name="revert-fix-history-shift", revert_commit="c48a63a", expect="R-C05-shift/SincFixedIn"),
+    dict(property="C06", name="revert-fix-ramp-provision", revert_commit="ec5a49b", expect="R-C06-provision"),
+    dict(property="C06", name="revert-fix-saturating-cast", revert_commit="b9378cf", expect="cast-covers-sum"),
+    dict(property="C03", name="revert-fix-saturating-cast", revert_commit="b9378cf", expect="cast-covers-sum"),
+    dict(property="C07", name="revert-fix-integer-blocks", revert_commit="b87f89a", expect="R-C07-exact"),
+    dict(property="C07", name="revert-fix-f64-needed", revert_commit="778de30", expect="R-C07-exact/asynchro_fast.rs"),
 ]
